@@ -33,6 +33,117 @@ pub fn shim_btreemap_filter_map_collect<K: Ord, V, F: FnMut((K, V)) -> Option<(K
 } // verus!
 }
 pub use crate::stdx::*;
+pub mod stdx3 {
+use vstd::prelude::*;
+use std::collections::{HashMap, HashSet};
+use std::hash::Hash;
+use vstd::std_specs::hash::*;
+verus! {
+
+/// hypotheses about a key type used in HashMap / HashSet (Hash consistent with Eq, Eq is spec equality)
+pub open spec fn key_ok<K: ?Sized>() -> bool {
+    obeys_key_model::<K>() && builds_valid_hashers::<std::hash::RandomState>()
+}
+
+/// "stored key kk is the one the borrowed key k denotes" (for Q == K this is kk == *k by vstd's deref axioms)
+pub open spec fn borrow_matches<K, Q: ?Sized>(kk: K, k: &Q) -> bool {
+    maps_borrowed_key_to_value(Map::<K, ()>::empty().insert(kk, ()), k, ())
+}
+
+pub assume_specification<'a, K, V, S, A, Q> [std::collections::HashMap::<K, V, S, A>::get_mut] (m: &'a mut std::collections::HashMap<K, V, S, A>, k: &Q) -> (r: std::option::Option<&'a mut V>)
+   where
+   A: std::alloc::Allocator,
+   K: std::cmp::Eq + std::hash::Hash + std::borrow::Borrow<Q>,
+   Q: std::marker::MetaSized + std::hash::Hash + std::cmp::Eq + ?Sized,
+   S: std::hash::BuildHasher,
+   ensures
+     obeys_key_model::<K>() && builds_valid_hashers::<S>() ==> match r {
+        Some(v) => exists|kk: K| #[trigger] borrow_matches(kk, k) && old(m)@.contains_key(kk) && *v == old(m)@[kk]
+                    && final(m)@ == old(m)@.insert(kk, *final(v)),
+        None => !contains_borrowed_key(old(m)@, k) && final(m)@ == old(m)@,
+     };
+
+/// N2 chain shim `SRC.into_iter().filter_map(F).collect()` HashMap -> HashMap; F must be key-preserving
+/// (then no two results collide in `collect`).
+#[verifier::external_body]
+pub fn shim_hashmap_filter_map_collect<K: Eq + Hash, V, F: FnMut((K, V)) -> Option<(K, V)>>(src: HashMap<K, V>, f: F) -> (r: HashMap<K, V>)
+    requires
+        forall|k: K| src@.contains_key(k) ==> call_requires(f, ((k, #[trigger] src@[k]),)),
+        forall|k: K, o: Option<(K, V)>| src@.contains_key(k) && #[trigger] call_ensures(f, ((k, src@[k]),), o) ==> (o matches Some(p) ==> p.0 == k),
+    ensures
+        forall|k: K| #[trigger] r@.contains_key(k) ==> src@.contains_key(k) && call_ensures(f, ((k, src@[k]),), Some((k, r@[k]))),
+        forall|k: K| #[trigger] src@.contains_key(k) && !r@.contains_key(k) ==> call_ensures(f, ((k, src@[k]),), None),
+{
+    src.into_iter().filter_map(f).collect()
+}
+
+/// N4 shim: `for PAT in MAP` over an owned HashMap visits each pair exactly once; modelled as a loop
+/// over the Vec of its pairs (vstd has no spec for hash_map::IntoIter).
+#[verifier::external_body]
+pub fn shim_hashmap_into_vec<K: Eq + Hash, V>(m: HashMap<K, V>) -> (r: Vec<(K, V)>)
+    ensures
+        forall|i: int| 0 <= i < r@.len() ==> m@.contains_key((#[trigger] r@[i]).0) && m@[r@[i].0] == r@[i].1,
+        forall|i: int, j: int| 0 <= i < j < r@.len() ==> (#[trigger] r@[i]).0 != (#[trigger] r@[j]).0,
+        forall|k: K| m@.contains_key(k) ==> exists|i: int| 0 <= i < r@.len() && (#[trigger] r@[i]).0 == k,
+{
+    m.into_iter().collect()
+}
+
+/// N2 shim for `MAP.entry(K).or_default()`
+#[verifier::external_body]
+pub fn shim_hashmap_entry_or_default<'a, K: Eq + Hash, V: Default>(m: &'a mut HashMap<K, V>, k: K) -> (r: &'a mut V)
+    ensures
+        key_ok::<K>() ==> {
+            &&& (old(m)@.contains_key(k) ==> *r == old(m)@[k])
+            &&& (!old(m)@.contains_key(k) ==> V::default.ensures((), *r))
+            &&& final(m)@ == old(m)@.insert(k, *final(r))
+        },
+{
+    m.entry(k).or_default()
+}
+
+/// N2 shim for `VEC.into_iter().collect()` into a HashSet
+#[verifier::external_body]
+pub fn shim_vec_collect_hashset<T: Eq + Hash>(v: Vec<T>) -> (r: HashSet<T>)
+    ensures key_ok::<T>() ==> r@ == v@.to_set(),
+{
+    v.into_iter().collect()
+}
+
+/// N2 shim for `std::iter::once(X).collect()` into a Vec
+#[verifier::external_body]
+pub fn shim_once_collect_vec<T>(x: T) -> (r: Vec<T>)
+    ensures r@ == seq![x],
+{
+    std::iter::once(x).collect()
+}
+
+/// N2 shim for `MAP.keys().cloned().collect()` into a HashSet
+#[verifier::external_body]
+pub fn shim_hashmap_keys_cloned_collect<K: Eq + Hash + Clone, V>(m: &HashMap<K, V>) -> (r: HashSet<K>)
+    ensures key_ok::<K>() && crate::spec::clone_ok::<K>() ==> r@ == m@.dom(),
+{
+    m.keys().cloned().collect()
+}
+
+pub assume_specification<T, S, A, I> [<std::collections::HashSet<T, S, A> as std::iter::Extend<T>>::extend] (s: &mut std::collections::HashSet<T, S, A>, it: I)
+   where
+   A: std::alloc::Allocator,
+   I: std::iter::IntoIterator<Item = T>,
+   S: std::hash::BuildHasher,
+   T: std::cmp::Eq + std::hash::Hash,
+;
+/// `SET.extend(OTHER_SET)`; the generic `Extend::extend` gets no contract, this wrapper states the one used
+#[verifier::external_body]
+pub fn shim_hashset_extend<T: Eq + Hash>(s: &mut HashSet<T>, other: HashSet<T>)
+    ensures key_ok::<T>() ==> final(s)@ == old(s)@.union(other@),
+{
+    s.extend(other)
+}
+
+} // verus!
+}
+pub use crate::stdx3::*;
 pub mod stdx2 {
 use vstd::prelude::*;
 use vstd::std_specs::iter::IteratorSpec;
